@@ -122,7 +122,7 @@ func (env *Env) load(lv *LV) SV {
 			}
 		}
 		if ground && os.Getenv("CBV_NO_GROUNDWF") == "" {
-			env.vc.assert(env.vc.wf(out, env.st.alloc))
+			env.vc.assert(mkImp(env.st.guard, env.vc.wf(out, env.st.alloc)))
 		}
 		return out
 	}
@@ -658,6 +658,10 @@ func (env *Env) evalCall(x *ECall) SV {
 	case "chanClosed":
 		argn(1)
 		return mathBool(env.fc.ghostGet(env.st, "chanClosed", SBool, env.eval(x.Args[0]).one()))
+	case "chanCap":
+		// chanCap(ch): the buffer size the channel was made with (0 = rendezvous)
+		argn(1)
+		return mathInt(env.fc.ghostGet(env.st, "chanCap", SInt, env.eval(x.Args[0]).one()))
 	case "sliceOf":
 		// sliceOf(arr, off, len, ElemType): the slice with that header (ghost-captured identity)
 		argn(4)
